@@ -127,3 +127,37 @@ impl Prng {
         (0..n).map(|_| (self.next_u64() & 0xff) as u8).collect()
     }
 }
+
+#[cfg(test)]
+mod tests {
+    use super::*;
+    #[test]
+    fn per_run_streams_look_independent() {
+        // first coin of 20000 consecutive runs: about half heads, and no pairing between neighbours
+        let mut heads = 0;
+        let mut same_as_prev = 0;
+        let mut prev = false;
+        for run in 0..20000u64 {
+            let mut r = Prng::for_run(20_260_927, 3114, run);
+            let c = r.coin();
+            if c {
+                heads += 1;
+            }
+            if run > 0 && c == prev {
+                same_as_prev += 1;
+            }
+            prev = c;
+        }
+        assert!((9700..=10300).contains(&heads), "heads {heads}");
+        assert!((9700..=10300).contains(&same_as_prev), "same {same_as_prev}");
+        // below(5) is uniform
+        let mut counts = [0usize; 5];
+        for run in 0..20000u64 {
+            let mut r = Prng::for_run(1, 2, run);
+            counts[r.below(5)] += 1;
+        }
+        for c in counts {
+            assert!((3700..=4300).contains(&c), "counts {counts:?}");
+        }
+    }
+}
